@@ -46,6 +46,9 @@ pub use unix::{Error as MmapRegionError, MmapRegion, MmapRegionBuilder};
 #[cfg(all(feature = "xen", target_family = "unix"))]
 pub use xen::{Error as MmapRegionError, MmapRange, MmapRegion, MmapXenFlags};
 
+#[cfg(all(feature = "xen", target_family = "unix", vm_memory_verif, not(test)))]
+pub use xen::verif_ioctl as xen_verif;
+
 #[cfg(target_family = "windows")]
 pub use std::io::Error as MmapRegionError;
 #[cfg(target_family = "windows")]
